@@ -22,7 +22,15 @@ BUF = 32768
 
 def make_base(r, sizes, dict_size=0, chunk_hash=3, tail=0):
     pieces = [r.randbytes(s) for s in sizes]
-    return zckref.make_file(pieces, dict_bytes=r.randbytes(dict_size) if dict_size else b"", chunk_hash_type=chunk_hash, header_tail=bytes(tail))
+    d = zckref.make_file(pieces, dict_bytes=r.randbytes(dict_size) if dict_size else b"", chunk_hash_type=chunk_hash, header_tail=bytes(tail))
+    if 0 in sizes:
+        # the library's convention for a chunk without bytes is an all-zero checksum (as for the empty dictionary): write it that way,
+        # so that the scan marks such a chunk valid
+        import basefiles
+        p = zckref.parse(d)
+        ch = [(c["digest"] if c["comp_len"] else bytes(len(c["digest"])), c["udigest"], c["comp_len"], c["len"]) for c in p.chunks]
+        d = basefiles.rebuild(p, d, chunks=ch, data_digest=p.data_digest)
+    return d
 
 
 def apply_vector(data, p, vec, r, truncate=False):
@@ -142,7 +150,16 @@ def seq_worker(case):
         files = {}
         L = []
         lims = []
-        for vi, vec in enumerate(case["vectors"]):
+        if case.get("match_src"):
+            # header-only target and source: the marking comes from zck_find_matching_chunks (index only), so the file can describe
+            # gigabytes without holding them
+            files["t.zck"] = data[:p.header_len]
+            files["src.zck"] = core.unb64(case["match_src"])
+            L += ["fopen 1 t.zck r target", "create 1", "init_read 1 1", "fopen 3 src.zck r source", "create 3", "init_read 3 3", "match 3 1", "flags 1"]
+            for lim in case["limits"][0]:
+                L += ["range 2 1 %d" % lim, "range_free 2"]
+                lims.append(lim)
+        for vi, vec in enumerate(case["vectors"] if not case.get("match_src") else []):
             files["s%d.bin" % vi] = apply_vector(data, p, vec, r)
             if vi == 0:
                 files["t.zck"] = files["s0.bin"]
@@ -177,7 +194,7 @@ def seq_worker(case):
                 step += 1
             elif e.get("op") == "range" and flags is not None:
                 stats["evaluations"] += 1
-                v = judge(p, flags, lims[li], e, "multi-step")
+                v = judge(p, flags, lims[li], e, case.get("tag", "multi-step"))
                 li += 1
                 if v and not viol:
                     viol = (v[0], v[1] + " (step %d of the sequence, markings so far %s)" % (step, case["vectors"][:step + 1]))
@@ -299,6 +316,9 @@ class C10(core.Check):
 
         # --- exhaustive small indexes
         small = [("n5", [3, 1, 7, 2, 40], 0), ("n5d", [10, 10, 1, 1, 300], 25)]
+        # empty chunks in the middle of the index (another writer may emit them; they occupy no bytes and verify trivially): the
+        # missing chunks around them are still byte-adjacent and must come out as ONE range
+        small.append(("n7z", [4, 0, 6, 0, 0, 3, 9], 0))
         small.append(("n8" if self.quick else "n11", [r.choice([1, 2, 5, 90]) for _ in range(8 if self.quick else 11)], r.choice([0, 17])))
         if not self.quick:
             small.append(("n13", [r.choice([1, 3, 9, 200]) for _ in range(13)], 0))
@@ -434,6 +454,25 @@ class C10(core.Check):
                     continue
                 hit.add(slack)
                 add("L-j%d-b%d" % (j, big_missing), data, [vec], [-1, 255, 3], "large-slack%d" % slack if slack == 0 else "large", batch=1)
+        # --- offsets of ten and more digits (targets beyond 1 GB, 10 GB, 1 TB) with request texts of 40-100 KB: every alignment of the
+        # longest pieces against the 32 KiB growth steps of the text buffer; index-only files, marking by zck_find_matching_chunks
+        nhuge = 0
+        for base_off in ([10 ** 9] if self.quick else [10 ** 9, 10 ** 10, 10 ** 12]):
+            for shift in range(0, 24 if self.quick else 48):
+                nsm = 3600
+                cds = 16
+                # `shift` short pieces (small offsets) in front move the phase of the 22-character pieces against the buffer steps
+                front = [(r.randbytes(cds), None, 1 + (k % 3 == 0), 1 + (k % 3 == 0)) for k in range(2 * shift)]
+                big = (r.randbytes(cds), None, base_off + shift, base_off + shift)
+                tail = [(r.randbytes(cds), None, 1 + (k % 7 == 0), 1 + (k % 7 == 0)) for k in range(nsm)]
+                chunks = [(bytes(cds), None, 0, 0)] + front + [big] + tail
+                keep = [chunks[0]] + [c for k, c in enumerate(front) if k % 2 == 0] + [big] + [c for k, c in enumerate(tail) if k % 2 == 0]
+                tgt = zckref.build(hash_type=1, flags=0, comp_type=0, chunk_hash_type=3, chunks=chunks, body=b"", data_digest=bytes(32))
+                src = zckref.build(hash_type=1, flags=0, comp_type=0, chunk_hash_type=3, chunks=keep, body=b"", data_digest=bytes(32))
+                out.append(dict(name="huge-%d-%d" % (base_off, shift), data=core.b64(tgt), vectors=[[0]], limits=[[-1, 4000, 255]], tag="huge-offsets", zh=zh, seed=self.seed, seq=True,
+                                match_src=core.b64(src)))
+                nhuge += 1
+        self.count("huge_offset_layouts", nhuge)
         self.extra_cov["buffer_crossing_slack_values"] = set(str(x) for x in hit)
         self.count("large_layouts", len(hit))
         return out
